@@ -40,6 +40,27 @@ def fam_methods_chain(n): return "const o = { v: 0, inc() { this.v++; return thi
 def fam_destructure(n): return "const [%s] = [%s];\nLOG(%s);\n" % (", ".join("e%d" % i for i in range(n)), ", ".join(str(i) for i in range(n)), ("e0 + e%d" % (n - 1)) if n else "0"), ["L|n:%d" % (n - 1 if n else 0)]
 def fam_if_chain(n):   return "function f(v) { %s return -1; }\nLOG([f(%d), f(%d)]);\n" % (" ".join("if (v === %d) return %d; else" % (i, i + 5) for i in range(n)), n - 1, n), ["L|a[n:%d;n:-1]" % (n + 4 if n else -1)]
 
+def fam_spread_call(n):     # n arguments arrive through a spread: parameters, defaults, rest and `new` see all of them
+    vals = [i + 1 for i in range(n)]
+    g = lambda i, d: vals[i] if i < n else d
+    pick = g(0, -1) * 1000000 + g(1, -2) * 1000 + g(2, -3)
+    ctor = g(0, -1) * 100000 + max(0, n - 1)
+    meth = g(0, -1) + g(1, -2)
+    return ("function pick(a = -1, b = -2, c = -3) { return a * 1000000 + b * 1000 + c; }\n"
+            "class P { v: number; constructor(x = -1, ...r: number[]) { this.v = x * 100000 + r.length; } }\n"
+            "const o = { m(x = -1, y = -2) { return x + y; } };\n"
+            "const a: number[] = []; for (let i = 0; i < %d; i++) a.push(i + 1);\n"
+            "LOG([pick(...a), new P(...a).v, o.m(...a), ((x = -1, y = -2) => x * 10 + y)(...a), Math.max(0, ...a)]);\n" % n), ["L|a[n:%d;n:%d;n:%d;n:%d;n:%d]" % (pick, ctor, meth, g(0, -1) * 10 + g(1, -2), n)]
+def fam_array_spread(n):    # a run of n plain elements next to spread elements
+    els = ", ".join("k + %d" % i for i in range(n))
+    lits = ", ".join(str(i) for i in range(n))
+    sep = ", " if n else ""
+    s = n * (n - 1) // 2
+    return ("let k = 0; const head = [7, 8], tail = [9];\n"
+            "const a = [...head%s%s]; const b = [%s%s...tail]; const c = [...head, %s%s...tail]; const d = [%s%s...head];\n"
+            "const sum = (x: number[]) => x.reduce((t, v) => t + v, 0);\n"
+            "LOG([a.length, sum(a), b.length, sum(b), c.length, sum(c), d.length, sum(d)]);\n" % (sep, els, els, sep, els, sep, lits, sep),
+            ["L|a[n:%d;n:%d;n:%d;n:%d;n:%d;n:%d;n:%d;n:%d]" % (n + 2, s + 15, n + 1, s + 9, n + 3, s + 24, n + 2, s + 15)])
 def fam_enum(n):
     if n == 0: return "enum E { Z }\nLOG([E.Z, E[0]]);\n", ["L|a[n:0;s:90]"]
     last = "M%d" % (n - 1)
@@ -55,7 +76,7 @@ def fam_int_literals(n):    # integer literals around every encoding boundary ke
 
 REG_FAMILIES = {"array": fam_array, "array_expr": fam_array_expr, "object": fam_object, "args": fam_args, "params": fam_params, "template": fam_template, "switch": fam_switch,
                 "nested_call": fam_nested_call, "nested_array": fam_nested_arr, "destructure": fam_destructure, "chain": fam_chain, "methods_chain": fam_methods_chain,
-                "enum": fam_enum, "enum_from": fam_enum_from, "int_literals": fam_int_literals}
+                "enum": fam_enum, "enum_from": fam_enum_from, "int_literals": fam_int_literals, "spread_call": fam_spread_call, "array_spread": fam_array_spread}
 SEQ_FAMILIES = {"stmts": fam_stmts, "decls": fam_decls, "calls": fam_calls, "mcalls": fam_mcalls, "string": fam_string, "consts": fam_consts, "if_chain": fam_if_chain}
 
 
@@ -80,13 +101,15 @@ def main(tier):
         jobs.append({"id": len(jobs), "source": src, "resp": [], "mode": "immediate", "path": "/p/main.ts", "max_steps": 3000000})
         meta.append((fam, n, live, exp + ([LIVEEXP] if live else [])))
     for fam, f in REG_FAMILIES.items():
-        grid = GRID_SMALL + ([1000, 4096, 10000] if not quick and fam in ("array", "object", "args", "template", "switch") else [])
+        grid = GRID_SMALL + ([1000, 4096, 10000] if not quick and fam in ("array", "object", "args", "template", "switch", "spread_call", "array_spread") else [])
+        if fam == "spread_call": grid = grid + [1000, 1024, 1025, 65536, 65537]     # argument counts are data here, not registers
         if fam in ("nested_call", "nested_array"): grid = [g for g in grid if g <= 300]
         for n in grid:
             add(fam, n, False, f)
             if n % 3 == 0 or 250 <= n <= 260: add(fam, n, True, f)
     for fam, f in SEQ_FAMILIES.items():
         grid = GRID_SMALL + ([1000, 4096] if quick else GRID_BIG)
+        if quick and fam == "consts": grid = grid + [65535, 65536, 65537]      # the 16-bit constant index is crossed in the quick tier too
         if fam == "if_chain": grid = [g for g in grid if g <= 2000]
         for n in grid:
             add(fam, n, n % 2 == 0, f)
